@@ -144,7 +144,9 @@ fn make_h(case: &TreeCase, n: usize, with_extras: bool) -> TreeSpec {
     let mut nodes = vec![];
     for (i, (p, l)) in sh.iter().enumerate() {
         let s = case.h[i.min(case.h.len() - 1)];
-        let id = free.remove(idx(u16::from(s.3) << 8, free.len()));
+        // one right graph in eight has the ids 0, 1, 2, … in node order (interp::build_tree then
+        // takes them from next_id()); its extras get explicit ids above them
+        let id = if case.order_sel % 8 == 5 { free.remove(0) } else { free.remove(idx(u16::from(s.3) << 8, free.len())) };
         let (data, read) = node_data(&s);
         nodes.push(TNode { id, parent: *p, label: l.clone(), data, read });
     }
